@@ -358,7 +358,73 @@ def run(fx, chk, tier):
                 else:
                     chk.bad("R5", key, "advance = (position taken BEFORE the child's header) + decoded size: for a child with a 64-bit size header BoxHeader::read returns largesize - 8, "
                             "so this lands 8 bytes before the child's end and the next header is read from its payload (use skip_box / the position after the header)", site_)
+    # the same rule for a cursor kept in a variable: a loop-carried integer that the iteration advances by the decoded size
+    # (`current += s`) is the pre-header position + size unless its base is a position taken after the header, minus 8
+    ncur = 0
+    for fid in sorted(eng.clo):
+        fn = fx.fns[fid]
+        if fn.get("derived") or body_of(fn) is None:
+            continue
+        body, ls, walks = rescan.boxwalk_loops(fx, fid)
+        it = eng.res.interps.get(fid)
+        if not walks or it is None:
+            continue
+        inv = {v: k for k, v in it.site_syms.items()}
+        for L in walks:
+            own = L.own_blocks(ls)
+            hs = [b for b, t in LP.calls_in(body, own) if rescan.is_header_read(t)]
+            if len(hs) != 1:
+                continue
+            H = hs[0]
+            carried = set()
+            for b in L.blocks:
+                for s_ in body.stmts(b):
+                    if s_["k"] == "assign" and not s_["place"]["p"] and body.local_name(s_["place"]["l"]):
+                        carried.add(s_["place"]["l"])
+            outside = set()
+            for b in range(body.n):
+                if b not in L.blocks:
+                    for s_ in body.stmts(b):
+                        if s_["k"] == "assign" and not s_["place"]["p"]:
+                            outside.add(s_["place"]["l"])
+                    t_ = body.term(b)
+                    if t_["k"] == "call" and not t_["dest"]["p"]:
+                        outside.add(t_["dest"]["l"])
+            for l in sorted(carried & outside):
+                for lb in L.latches:
+                    st = it.out_states.get(lb)
+                    sid = st.cells.get((l,)) if st is not None else None
+                    if sid is None:
+                        continue
+                    form = c01_tables.Lin(it).sym(st, sid)
+                    if not form:
+                        continue
+                    svars, pvars, other = [], [], []
+                    for v, c in form.items():
+                        if v == ():
+                            continue
+                        site = inv.get(v[1]) if isinstance(v, tuple) and v and v[0] == "sym" else None
+                        if site and site[0] == "call" and site[1] == (H, "t") and site[2][-1:] == (".size",):
+                            svars.append((v, c))
+                        elif site and site[0] == "call" and site[2] == ("as Ok", ".0") and strip_generics(body.term(site[1][0])["callee"].get("path") or "") == "std::io::Seek::stream_position":
+                            pvars.append((v, c, site[1][0]))
+                        else:
+                            other.append(v)
+                    if not svars:
+                        continue
+                    ncur += 1
+                    key = "%s|cursor|%s" % (fn_short(fid), body.local_name(l))
+                    site_ = site_of(fn, L.line)
+                    const = form.get((), 0)
+                    if not other and len(pvars) == 1 and pvars[0][1] == 1 and svars[0][1] == 1 and body.dominates(H, pvars[0][2]) and const == -8:
+                        chk.ok("R5", key, "cursor = position taken after the header + size - 8", site_)
+                    else:
+                        chk.bad("R5", key, "the loop cursor `%s` is advanced by the decoded child size from a base that is not the position after the child's header (%s): for a child with a 64-bit size header "
+                                "BoxHeader::read returns largesize - 8, so the cursor falls 8 bytes short of the child's end per such child and the walk reads past its parent (re-read stream_position(), or use the position after the header + size - 8)"
+                                % (body.local_name(l), c01_tables.l_str(form)), site_)
+                    break
     chk.analysed["absolute_advances_by_child_size"] = nadv
+    chk.analysed["arithmetic_cursors"] = ncur
     # the relative helper: skip_box(reader, s) must be called with the stream still at the end of the header just read,
     # and its own target must be (position - 8) + size
     sb = [f for f in fx.fns.values() if f["id"].endswith("::skip_box") and f["kind"] == "Fn"]
